@@ -165,12 +165,14 @@ func (s *AbsfsNFS) LookupWithContext(ctx context.Context, path string) (*NFSNode
 
 	// Use Lstat to get symlink info without following
 	// The filesystem now implements absfs.SymlinkFileSystem which has Lstat
+	// (the epoch keeps a result that a concurrent mutation made stale out of the cache)
+	epoch := s.attrCache.Epoch()
 	info, err := s.fs.Lstat(path)
 
 	if err != nil {
 		// Store negative cache entry if enabled and error is "not found"
 		if os.IsNotExist(err) {
-			s.attrCache.PutNegative(path)
+			s.attrCache.PutNegativeIfCurrent(path, epoch)
 			s.RecordNegativeCacheMiss()
 		}
 		return nil, fmt.Errorf("lookup: failed to stat %s: %w", path, err)
@@ -201,7 +203,7 @@ func (s *AbsfsNFS) LookupWithContext(ctx context.Context, path string) (*NFSNode
 	}
 
 	// Cache the attributes
-	s.attrCache.Put(path, attrs)
+	s.attrCache.PutIfCurrent(path, attrs, epoch)
 	return node, nil
 }
 
@@ -218,6 +220,7 @@ func (s *AbsfsNFS) GetAttr(node *NFSNode) (*NFSAttrs, error) {
 
 	// Get fresh attributes using Lstat (to handle symlinks properly)
 	// The filesystem implements absfs.SymlinkFileSystem which has Lstat
+	epoch := s.attrCache.Epoch()
 	info, err := s.fs.Lstat(node.path)
 
 	if err != nil {
@@ -248,7 +251,7 @@ func (s *AbsfsNFS) GetAttr(node *NFSNode) (*NFSAttrs, error) {
 	attrs.Refresh() // Initialize cache validity
 
 	// Cache the attributes
-	s.attrCache.Put(node.path, attrs)
+	s.attrCache.PutIfCurrent(node.path, attrs, epoch)
 	return attrs, nil
 }
 
@@ -827,6 +830,10 @@ func (s *AbsfsNFS) ReadDirWithContext(ctx context.Context, dir *NFSNode) ([]*NFS
 		}
 	}
 
+	var dirEpoch uint64
+	if s.dirCache != nil {
+		dirEpoch = s.dirCache.Epoch()
+	}
 	f, err := s.fs.OpenFile(dir.path, os.O_RDONLY, 0)
 	if err != nil {
 		return nil, fmt.Errorf("readdir: failed to open directory %s: %w", dir.path, err)
@@ -847,7 +854,7 @@ func (s *AbsfsNFS) ReadDirWithContext(ctx context.Context, dir *NFSNode) ([]*NFS
 
 	// Store entries in cache if enabled
 	if s.dirCache != nil {
-		s.dirCache.Put(dir.path, entries)
+		s.dirCache.PutIfCurrent(dir.path, entries, dirEpoch)
 	}
 
 	var nodes []*NFSNode
@@ -889,6 +896,7 @@ func (s *AbsfsNFS) ReadDirPlus(dir *NFSNode) ([]*NFSNode, error) {
 		if attrs, found := s.attrCache.Get(node.path, s); !found || attrs == nil || !attrs.IsValid() {
 			// Lstat, like LOOKUP and GETATTR: an entry that is a symbolic link is
 			// reported as the link, not as its target.
+			epoch := s.attrCache.Epoch()
 			info, err := s.fs.Lstat(node.path)
 			if err != nil {
 				continue
@@ -912,7 +920,7 @@ func (s *AbsfsNFS) ReadDirPlus(dir *NFSNode) ([]*NFSNode, error) {
 			attrs.SetMtime(modTime)
 			attrs.SetAtime(modTime)
 			attrs.Refresh() // Initialize cache validity
-			s.attrCache.Put(node.path, attrs)
+			s.attrCache.PutIfCurrent(node.path, attrs, epoch)
 
 			// Assign attrs with write lock protection
 			node.mu.Lock()
